@@ -199,6 +199,12 @@ def oracle_all(codes, cfgs, mask=None, do_flags=True):
                 f13.append(("Cycles.metrics['is_good']", 'container construction failed'))
             else:
                 f13 += oracle_flags(ph, step, edge, fl[1:])
+            # the same phase handed over as a single column (n,1) - the layout frequency_transform returns for one IMF
+            flc = impl_flags(pha[:, None], step, edge)
+            if flc[0] == -2:
+                f13.append(("Cycles.metrics['is_good']", 'container construction failed for the phase given as a single column (n,1)'))
+            else:
+                f13 += oracle_flags(ph, step, edge, flc[1:], what="Cycles.metrics['is_good'] (phase given as a column (n,1))")
     return f12, f13
 
 
